@@ -89,3 +89,25 @@ Lemma env_attrs : forall t c,
     assoc_str "impl_attr" (trait_env t c) = Some (match tc_impl_attr (c_core c) with Some a => a | None => [] end) /\
     assoc_str "inner_attr" (trait_env t c) = Some (match tc_inner_attr (c_core c) with Some a => a | None => [] end).
 Proof. intros. unfold trait_env. cbn. auto. Qed.
+
+(* `return expr` replaces the WHOLE body - also when a member carries a bare #[parent]: no post-init statement is generated (the
+   repaired finding F-08b / F-17b); the item is the skeleton with vars, then the expression, and nothing else in the fn *)
+Definition no_post (c0 : ictx) : ictx :=
+  {| c_kind := c_kind c0; c_fallible := c_fallible c0; c_core := c_core c0; c_hint := c_hint c0; c_impl_type := c_impl_type c0;
+     c_dst := c_dst c0; c_src := c_src c0; c_post_init := false; c_named := c_named c0 |}.
+
+Theorem return_replaces_whole_body : forall t c0 qr,
+    tc_qret (c_core c0) = Some qr -> c_fallible c0 = false ->
+    let c := no_post c0 in
+    let e1 := ("pre_init", opt_toks (struct_pre_init c0)) :: ("init", quick_return_block qr c) :: ("post_init", []) :: trait_env t c in
+    quote_trait t c0 =
+    Ok (if is_from (c_kind c0) then inst (("pre_init", opt_toks (struct_pre_init c0)) :: ("init", quick_return_block qr c) :: trait_env t c) sk_from
+        else if is_intoish (c_kind c0) then inst (("body", inst e1 sk_into_body_plain) :: e1) sk_into
+        else inst e1 sk_into_existing).
+Proof.
+  intros t c0 qr Hq Hf c e1. unfold quote_trait. rewrite Hq. cbn [is_some bind opt_toks].
+  fold (no_post c0). fold c. cbn [c_kind c_fallible]. change (c_kind c) with (c_kind c0). change (c_fallible c) with (c_fallible c0). rewrite Hf.
+  assert (Hqc : tc_qret (c_core c) = Some qr) by exact Hq.
+  destruct (quick_return_replaces (tv_data t) c qr Hqc) as [Hm _]. rewrite Hm. cbn [bind].
+  destruct (is_from (c_kind c0)); [reflexivity|]. destruct (is_intoish (c_kind c0)); reflexivity.
+Qed.
